@@ -33,7 +33,8 @@ def check_switch_pairing(P, R, key):
     mp = f.value_params[0]  # machine
     found = set()
     for st, t, v, k in stores(f):
-        if isinstance(t, ast.Attribute) and isinstance(t.value, ast.Name) and t.value.id == mp and t.attr in SWITCHES.values():
+        if isinstance(t, ast.Attribute) and isinstance(t.value, ast.Name) and t.value.id == mp and t.attr.lstrip("_") in SWITCHES.values():
+            t = ast.Attribute(value=t.value, attr=t.attr.lstrip("_"), ctx=t.ctx)
             g = guards_of(st)
             sw = [src(c) for c, pol in g if pol and isinstance(c, ast.Name) and c.id in SWITCHES]
             want = [s for s, a in SWITCHES.items() if a == t.attr][0]
